@@ -204,9 +204,18 @@ def genMacro (st : GS) : Gen (Macro × GS) := do
   let i ← rnd 3
   let a := st.w.get i
   let sz := a.size
-  let kind ← rnd 10
+  let kind ← rnd 12
   let n ← rnd 9
   match kind with
+  | 10 =>     -- non-owner Array_ handle (DontCopy constructor / shareData) onto a(off,len): fill / assign(n,v) through it
+    let off ← rnd (sz + 1); let len ← rnd (sz - off + 1)
+    let (v, st) := fresh st
+    let how ← rnd 3
+    return ({ line := s!"I w shareFill {i} {off} {len} {how} {v}", ops := [.on i (.viewFill off len 0 len (.ext v))] }, st)
+  | 11 =>     -- non-owner handle = other array of the same size (elementwise assignment branch of operator=)
+    let off ← rnd (sz + 1); let len ← rnd (sz - off + 1)
+    let (vs, st) := freshList st len
+    return ({ line := s!"I w shareAssign {i} {off} {listTok vs}", ops := [.on i (.viewAssign off vs)] }, st)
   | 0 =>      -- Array_(n): n default-constructed elements, exact allocation
     return ({ line := s!"I w ctorN {i} {n}",
               ops := [.on i .deallocate, .on i (.reserve n), .on i (.assignRange (List.replicate n defaultVal))] }, st)
